@@ -130,12 +130,12 @@ character strings ≤ 255 bytes and NSEC type lists well formed (`MsgSafe`). -/
 theorem C15_encoder_total (m : Encode.Msg) (hm : MsgSafe m) : ∃ pks, Encode.packets m = .ok pks :=
   packets_total m hm
 
-/-- **The legacy-unicast reply can always be built**: whatever datagram the query came in, echoing
+/-- **The legacy-unicast reply can always be built**: whatever datagram (of at most 8966 bytes, what the listener lets through) the query came in, echoing
 the questions of the decoded object next to any safe answer set yields datagrams — the D8 raise
 site is unreachable, and so is every other raise site of the encoder. -/
-theorem C15_echo_total (data : Bytes) (p : Parsed) (h : (parse data).out = .ok p) (a : AnswerSet) (ha : SetSafe a) (u : Bool) :
+theorem C15_echo_total (data : Bytes) (hlen : data.length ≤ 8966) (p : Parsed) (h : (parse data).out = .ok p) (a : AnswerSet) (ha : SetSafe a) (u : Bool) :
     ∃ pks, Encode.packets (unicastMsg a u p.questions p.hdr.id) = .ok pks := by
-  obtain ⟨p', hp', hk⟩ := parse_pkt data 0
+  obtain ⟨p', hp', hk⟩ := parse_pkt data 0 hlen
   rw [h] at hp'
   cases hp'
   exact packets_total _ (unicastMsg_safe a u p.questions p.hdr.id ha (questions_ok hk) hk.2.2.2.1)
@@ -265,7 +265,7 @@ def exRestAll : Rest Unit String := { exRest with route := fun r _ _ _ dict => .
 example : RouteOK exRestAll (fun _ => True) :=
   fun r0 _ _ _ _ _ => ⟨r0, _, rfl, trivial, by intro x hx; simpa [dictRecords, exRestAll] using hx⟩
 
-example : CInv lower ettl (fun _ : Unit => True) ⟨{}, [], [], [], {}, none, ()⟩ := CInv.init lower ettl _ () trivial
+example : CInv lower ettl (fun _ : Unit => True) ⟨{}, [], [], [], {}, [], [], none, ()⟩ := CInv.init lower ettl _ () trivial
 
 end composed
 
@@ -407,7 +407,7 @@ theorem C15_announcement_reaches_browser_partial {β : Type} (hL : ListenersOK R
       Out.down (COut.callback i ⟨.added, t, alias⟩) ∈ out := by
   have hD := C15_down_composed lower possible ettl R Iρ hL hR hQ
   obtain ⟨hI1, hL1⟩ := C15_after_history hD other hO d0 h0 bs s1 o1 hrun
-  obtain ⟨p', hp', hk⟩ := parse_pkt data now
+  obtain ⟨p', hp', hk⟩ := parse_pkt data now hsize
   rw [hp] at hp'
   cases hp'
   obtain ⟨d', out, i, hi, hmem⟩ := comp_ingest_added lower possible ettl R Iρ hL hI1 ⟨data, now, p, none⟩ hk hw hty hrd hlive hnew hb ht hposs
@@ -492,7 +492,7 @@ example : (match recv exDown (State.init ()) ([0, 7, 0, 0, 0, 1, 0, 0, 0, 0, 0, 
 
 /-- the invariant is not empty: a state with a deferred packet and its armed timer satisfies `LInv` -/
 example : ∃ k : Pkt, PktOK k ∧ LInv (σ := Unit) ⟨none, 0, none, [("10.0.0.9", [k])], [("10.0.0.9", ⟨450, 5353⟩)], ()⟩ := by
-  obtain ⟨p, _, hk⟩ := parse_pkt [0, 0, 2, 0, 0, 0, 0, 0, 0, 0, 0, 0] 0
+  obtain ⟨p, _, hk⟩ := parse_pkt [0, 0, 2, 0, 0, 0, 0, 0, 0, 0, 0, 0] 0 (by decide)
   refine ⟨_, hk, ⟨?_, ?_⟩⟩
   · intro a t ht
     by_cases ha : "10.0.0.9" = a
